@@ -7,15 +7,18 @@ from runner import VERIF, WORK, LEAN, REPLAYS, EVID, log
 from gen import Gen, P, ALL_CBS
 
 ALL = r".*"
+# 2-safety properties are decided by twin runs (implementation against implementation) and their own monitors;
+# a model/implementation divergence in some component is attributed to the property that owns that component
+NONE = r"^$"
 STATE_NON_PI_DESYNC = re.compile(r"^(S\.|A$|T\d\.cells|G$)")
 
 # property -> regex of compared components, monitors, lean module, theorems
 PROPS = {
     "C01": dict(pi=r"^S\.(pi|pty|tp|ta|ms)$", title="basic tuning fields"),
     "C02": dict(pi=r"^T\d\.cells$", title="characters land in the addressed cells"),
-    "C03": dict(pi=ALL, title="blocks above the accepted error level are irrelevant"),
+    "C03": dict(pi=NONE, title="blocks above the accepted error level are irrelevant"),
     "C04": dict(pi=r"^(E\d+|S\..*|A|T\d\.cells)$", title="callbacks fire exactly on change"),
-    "C05": dict(pi=r"^(ret|X)$", title="memory safety / no UB"),
+    "C05": dict(pi=r"^X$", title="memory safety / no UB"),
     "C06": dict(pi=r"^T\d\.cells$", title="thresholds and weighted level"),
     "C07": dict(pi=r"^T\d\.cells$", title="progressive correction only improves"),
     "C08": dict(pi=r"^(T1\.cells|T2\.cells|E9)$", title="RadioText A/B protocol"),
@@ -23,14 +26,14 @@ PROPS = {
     "C10": dict(pi=r"^(A|E7)$", title="AF list"),
     "C11": dict(pi=r"^(S\.ecc|S\.country|S\.pi|E5|E6)$", title="ECC and country"),
     "C12": dict(pi=r"^E11$", title="clock time"),
-    "C13": dict(pi=ALL, title="reset forgets history, keeps settings"),
-    "C14": dict(pi=ALL, title="hex-string input"),
-    "C15": dict(pi=ALL, title="observers are pure"),
+    "C13": dict(pi=NONE, title="reset forgets history, keeps settings"),
+    "C14": dict(pi=r"^ret$", title="hex-string input"),
+    "C15": dict(pi=NONE, title="observers are pure"),
     "C16": dict(pi=r"^T\d\.(cells|term|len|av)$", title="texts well-formed"),
     "C17": dict(pi=r"^G$", title="settings"),
     "C18": dict(pi=r"^$", title="PTY and country lookups"),
-    "C19": dict(pi=ALL, title="instances isolated"),
-    "C20": dict(pi=ALL, title="build configurations"),
+    "C19": dict(pi=NONE, title="instances isolated"),
+    "C20": dict(pi=NONE, title="build configurations"),
 }
 
 def lean_info(pid):
